@@ -51,7 +51,7 @@ PROPS = {
                 "checksum is written: byte order of that path). distinct = (op, kind, outcome, length class).",
     },
     "C04": {
-        "theorems": ["FinProto.Obl.C04_frames_recognised", "FinProto.Obl.C04_repo", "FinProto.Obl.C04_shape", "FinProto.frame_len_exact", "FinProto.frame_shape", "FinProto.patch_mid"],
+        "theorems": ["FinProto.Obl.C04_frames_recognised", "FinProto.Obl.C04_repo", "FinProto.Obl.C04_shape", "FinProto.frame_len_exact", "FinProto.frame_shape", "FinProto.patch_mid", "FinProto.Obl.C04_nosvc", "FinProto.encFrameNS_frame"],
         "aspects": {**ENC_ALL, "encns": [0, 1, 2]},
         "rule": "the 4 self-measuring frames x every body type of their tables x {stale length/checksum, absent body, unregistered key} x "
                 "bodies of 30/120/300 elements (> 1 KiB: the buffer reallocates while the body is written) x buffer histories; the length on the "
